@@ -222,6 +222,11 @@ func poolStress(args []string) int {
 	nLoggers := 1 + int(seed%8)
 	env := newPoolEnv(nLoggers)
 	slog.SetFlags(slog.LstdFlags | slog.LnoInterrupt)
+	if strings.HasSuffix(mode, "+rare") {
+		// the rarely used flags: code paths (and their lazily built state) that default flags never reach
+		mode = strings.TrimSuffix(mode, "+rare")
+		slog.SetFlags(slog.LstdFlags | slog.LnoInterrupt | slog.Lcallerpackagename | slog.Ldate | slog.LattrsR)
+	}
 	rng := rand.New(rand.NewSource(seed))
 	sevs := []slog.Level{slog.InfoLevel, slog.WarnLevel, slog.ErrorLevel, slog.DebugLevel, slog.AlwaysLevel, slog.Level(77)}
 	var calls []*poolCall
@@ -233,6 +238,18 @@ func poolStress(args []string) int {
 			pc.Msg = fmt.Sprintf("call#%06d#", pc.ID)
 			if rng.Intn(4) == 0 {
 				pc.Msg += "\nsecond line\nthird"
+			}
+			// records longer than a fresh pooled buffer (1 KiB) and than several of them together: the
+			// buffer has to grow while other goroutines are formatting in theirs
+			switch rng.Intn(10) {
+			case 0:
+				pc.Msg += strings.Repeat(fmt.Sprintf("<%06d>", pc.ID), 140) // ~1.1 KiB
+			case 1:
+				pc.Msg += strings.Repeat(fmt.Sprintf("<%06d>", pc.ID), 400) // ~3 KiB
+			case 2:
+				if rng.Intn(3) == 0 {
+					pc.Msg += strings.Repeat(fmt.Sprintf("<%06d>", pc.ID), 2500) // ~20 KiB
+				}
 			}
 			if rng.Intn(12) == 0 { // a blank Print/Println: delivered as a single newline
 				pc.Sev, pc.Msg, pc.Blank, pc.Thru = slog.AlwaysLevel, []string{"", " ", "\n"}[rng.Intn(3)], true, false
